@@ -21,7 +21,8 @@ DeclaredOk(got, exp) == Len(got) = Len(exp) /\ \A i \in 1..Len(exp) : got[i] = e
 
 RunOk(r) ==
   LET d == r.decl
-      en == Enabled(r.mode, d.level, r.cap)
+      \* r.static_max: the compile-time cap of the build under test (tracing's max_level_* features; 5 = none)
+      en == Enabled(r.mode, d.level, r.cap) /\ d.level <= r.static_max
       main == IF d.kind = "span" THEN "new_span" ELSE "event"
   IN
   /\ ~("panic" \in DOMAIN r)
